@@ -2085,7 +2085,8 @@ func c12g(c *Ctx) {
 // peek2Token, ...) and used without the parser having advanced in between — it is the literal of
 // a token that is still ahead, not of the one being consumed.
 func (c *Ctx) readsLookahead(fn *ssa.Function, v ssa.Value, use ssa.Instruction) bool {
-	var load ssa.Instruction
+	origV := v
+	var load, curLoad ssa.Instruction
 	peek := false
 	for i := 0; i < 6 && !peek; i++ {
 		switch x := v.(type) {
@@ -2099,19 +2100,102 @@ func (c *Ctx) readsLookahead(fn *ssa.Function, v ssa.Value, use ssa.Instruction)
 		case *ssa.FieldAddr:
 			if typeIs(x.X.Type(), "parser", "Parser") {
 				if !strings.HasPrefix(fieldName(x.X.Type(), x.Field), "peek") {
-					return false
+					curLoad = load
+					v = nil
+					break
 				}
 				peek = true
 			}
-			v = x.X
+			if v != nil {
+				v = x.X
+			}
 		default:
-			return false
+			v = nil
+		}
+		if v == nil {
+			break
 		}
 	}
-	if !peek || load == nil {
+	advances := func(in ssa.Instruction) bool {
+		ci, ok := in.(ssa.CallInstruction)
+		if !ok {
+			return false
+		}
+		g := callee(ci)
+		if g == nil || !c.W.InRepo(g) {
+			return false
+		}
+		for _, w := range c.Eff().Writes(g) {
+			if w == "parser.Parser.curToken" {
+				return true
+			}
+		}
 		return false
 	}
-	advances := func(in ssa.Instruction) bool {
+	// the current token read earlier and used after the parser has moved on
+	// (`operandToken := p.curToken` … nextToken() … operandToken.Literal)
+	if !peek && curLoad != nil {
+		stale := false
+		instrs(fn, func(in ssa.Instruction) {
+			if stale || !advances(in) {
+				return
+			}
+			if _, ok1 := existsPath(pathQuery{from: after(curLoad), target: func(x ssa.Instruction) bool { return x == in }}); !ok1 {
+				return
+			}
+			if _, ok2 := existsPath(pathQuery{from: after(in), target: func(x ssa.Instruction) bool { return x == use }, stopAt: func(x ssa.Instruction) bool { return x == curLoad }}); ok2 {
+				stale = true
+			}
+		})
+		if stale {
+			return true
+		}
+	}
+	// a copy of a token taken earlier and kept in a cell: likewise
+	if !peek {
+		var base ssa.Value = origV
+		for i := 0; i < 4; i++ {
+			switch x := base.(type) {
+			case *ssa.UnOp:
+				base = x.X
+				continue
+			case *ssa.FieldAddr:
+				base = x.X
+				continue
+			}
+			break
+		}
+		if a, isA := base.(*ssa.Alloc); isA && typeIs(a.Type(), "token", "Token") && a.Referrers() != nil {
+			for _, r := range *a.Referrers() {
+				st, isSt := r.(*ssa.Store)
+				if !isSt || st.Addr != ssa.Value(a) {
+					continue
+				}
+				// on some way from the copy to the use the parser has moved on (and the copy was
+				// not taken anew): the literal is that of a token already behind
+				stale := false
+				instrs(fn, func(in ssa.Instruction) {
+					if stale || !advances(in) {
+						return
+					}
+					if _, ok1 := existsPath(pathQuery{from: after(st), target: func(x ssa.Instruction) bool { return x == in }}); !ok1 {
+						return
+					}
+					if _, ok2 := existsPath(pathQuery{from: after(in), target: func(x ssa.Instruction) bool { return x == use }, stopAt: func(x ssa.Instruction) bool { return x == ssa.Instruction(st) }}); ok2 {
+						stale = true
+					}
+				})
+				if stale {
+					return true
+				}
+			}
+		}
+		return false
+	}
+	if load == nil {
+		return false
+	}
+	advances = func(in ssa.Instruction) bool {
 		ci, ok := in.(ssa.CallInstruction)
 		if !ok {
 			return false
